@@ -138,7 +138,9 @@ static void scratch_init(void)
 }
 static void write_file(const uint8_t * p, size_t n)
 {
-	FILE * f = fopen(scratch_file, "wb");
+	FILE * f;
+	if (!scratch[0]) scratch_init();	/* on first use: runs without file cases leave nothing behind */
+	f = fopen(scratch_file, "wb");
 	if (f == NULL || (n && fwrite(p, 1, n, f) != n) || fclose(f)) { perror("scratch file"); exit(3); }
 }
 
@@ -200,7 +202,6 @@ int main(void)
 {
 	char * line; char * tok[10];
 	setvbuf(stdout, NULL, _IOLBF, 0);
-	scratch_init();
 	warnp_mode_init();
 	while ((line = drv_getline()) != NULL) {
 		int n = drv_split(line, tok, 10);
